@@ -326,7 +326,11 @@ static void pool_add(const char *name, EVP_PKEY *k)
 static void oct_bytes(unsigned char *out, size_t len, const char *var)
 {
 	uint64_t s = fnv(var) ^ (len * 0x9e3779b97f4a7c15ULL) ^ 0x5eedULL;
+	const char *q;
 	for (size_t i = 0; i < len; i++) out[i] = (unsigned char)(splitmix(&s) >> 24);
+	/* variants "<v>.end<hh>" / "<v>.beg<hh>": the last / first octet is forced (newline, NUL, space, '=' ...) */
+	if (len && (q = strstr(var, ".end")) && strlen(q) == 6) out[len - 1] = (unsigned char)strtoul(q + 4, NULL, 16);
+	if (len && (q = strstr(var, ".beg")) && strlen(q) == 6) out[0] = (unsigned char)strtoul(q + 4, NULL, 16);
 }
 
 static char *bn_b64(const BIGNUM *bn, int width, int pad)
@@ -380,6 +384,11 @@ static void apply_defect(json_t *jwk, const char *member, const char *cls)
 		} else json_object_set_new(jwk, member, json_string("AQIDBAUG"));
 	} else if (!strcmp(cls, "unknownstr")) json_object_set_new(jwk, member, json_string("bogus-value"));
 	else if (!strcmp(cls, "foreign")) json_object_set_new(jwk, member, json_string("AQAB"));
+	/* y := x: coordinates of the right width that are not a point of the curve */
+	else if (!strcmp(cls, "offcurve")) { json_t *x = json_object_get(jwk, "x"); json_object_set_new(jwk, member, x ? json_copy(x) : json_string("AQAB")); }
+	/* valid JSON strings with characters beyond ASCII (UTF-8 bytes >= 0x80) where base64url is expected */
+	else if (!strcmp(cls, "utf8")) json_object_set_new(jwk, member, json_string("AQAB\xc3\xa9"));
+	else if (!strcmp(cls, "utf8b")) json_object_set_new(jwk, member, json_string("\xf4\x8f\xbf\xbf" "AQAB\xe2\x82\xac" "A"));
 	else die("unknown defect class %s", cls);
 }
 
@@ -1052,6 +1061,7 @@ static int fault_mode;
 /* Fill a jwt_value_t from a value descriptor.  Returns storage to free. */
 struct vstore { char *name; char *s; };
 static void vstore_free(struct vstore *vs) { free(vs->name); free(vs->s); }
+static unsigned stale_turn;	/* reset at every case, so that a case replays alone exactly as in a batch */
 static void fill_value(jwt_value_t *jv, json_t *v, struct vstore *vs, int set)
 {
 	const char *t = jstr(v, "t", "int");
@@ -1089,7 +1099,13 @@ static void fill_value(jwt_value_t *jv, json_t *v, struct vstore *vs, int set)
 	} else if (!strncmp(t, "#", 1)) {
 		jv->type = (jwt_value_type_t)atoi(t + 1);
 	} else die("value type %s", t);
-	jv->error = JWT_VALUE_ERR_NONE;
+	/* an application that fills the public struct by hand and reuses it carries the previous call's
+	 * error in it: the request's outcome must not depend on that (stale values rotate deterministically) */
+	{
+		static const jwt_value_error_t stale[] = { JWT_VALUE_ERR_EXIST, JWT_VALUE_ERR_NONE, JWT_VALUE_ERR_NOEXIST,
+							   JWT_VALUE_ERR_TYPE, JWT_VALUE_ERR_INVALID, JWT_VALUE_ERR_NOMEM };
+		jv->error = stale[stale_turn++ % (sizeof stale / sizeof stale[0])];
+	}
 }
 /* project what a getter returned: [t, s, w]; a whole-map JSON get also
  * yields the member list through *mapout */
@@ -2049,11 +2065,13 @@ static void run_op(json_t *op)
 		json_object_set_new(ev, "ret", json_integer(ret));
 		json_object_set_new(ev, "cur", json_string(jwt_get_crypto_ops()));
 		json_object_set_new(ev, "curt", json_integer(jwt_get_crypto_ops_t()));
+		json_object_set_new(ev, "jwk", json_integer(jwt_crypto_ops_supports_jwk()));
 	} else if (!strcmp(name, "OpsT")) {
 		int ret = jwt_set_crypto_ops_t((jwt_crypto_provider_t)jint(op, "id", 0));
 		json_object_set_new(ev, "ret", json_integer(ret));
 		json_object_set_new(ev, "cur", json_string(jwt_get_crypto_ops()));
 		json_object_set_new(ev, "curt", json_integer(jwt_get_crypto_ops_t()));
+		json_object_set_new(ev, "jwk", json_integer(jwt_crypto_ops_supports_jwk()));
 	} else if (!strcmp(name, "Load")) {
 		op_load(op, ev);
 	} else if (!strcmp(name, "ItemGet")) {
@@ -2277,6 +2295,7 @@ static void run_case(json_t *c, long idx)
 	case_rng = seed * 0x9e3779b97f4a7c15ULL ^ fnv(id);
 	drv_now = 1700000000;
 	jwt_set_crypto_ops("openssl");
+	stale_turn = 0;
 	ev = json_pack("{s:s,s:s,s:I}", "e", "Case", "id", id, "n", (json_int_t)idx);
 	emit(ev); json_decref(ev);
 	alarm(call_timeout);
@@ -2314,6 +2333,7 @@ static void run_case_fault(json_t *c, long idx)
 	drv_now = 1700000000;
 	jwt_set_crypto_ops("openssl");
 	jwt_set_alloc(drv_malloc, drv_free);
+	stale_turn = 0;
 	ev = json_pack("{s:s,s:s,s:I}", "e", "Case", "id", id, "n", (json_int_t)idx);
 	emit(ev); json_decref(ev);
 	fault_mode = 1; alloc_fail_at = -1; alloc_count = 0; alloc_failed = 0;
@@ -2419,7 +2439,12 @@ int main(int argc, char **argv)
 		for (int tries = 0; tries < 200000; tries++) {
 			EVP_PKEY *k = fresh_key(mode_gen, atoi(mode_arg ? mode_arg : "2048"));
 			int ok = 1;
-			if (mode_zero) {
+			if (mode_zero && (EVP_PKEY_id(k) == EVP_PKEY_ED25519 || EVP_PKEY_id(k) == EVP_PKEY_ED448)) {
+				/* OKP: x and d are octet strings; "zx"/"zd": the first octet is 0 */
+				unsigned char raw[64]; size_t rl = sizeof raw;
+				ok = (!strcmp(mode_zero, "zx") ? EVP_PKEY_get_raw_public_key(k, raw, &rl) : EVP_PKEY_get_raw_private_key(k, raw, &rl)) == 1
+				     && rl > 0 && raw[0] == 0;
+			} else if (mode_zero) {
 				BIGNUM *bn = NULL;
 				int w = (EVP_PKEY_get_bits(k) + 7) / 8;
 				EVP_PKEY_get_bn_param(k, !strcmp(mode_zero, "zx") ? OSSL_PKEY_PARAM_EC_PUB_X : !strcmp(mode_zero, "zy") ? OSSL_PKEY_PARAM_EC_PUB_Y : OSSL_PKEY_PARAM_PRIV_KEY, &bn);
